@@ -25,6 +25,7 @@ import (
 
 	"golang.org/x/tools/go/ssa"
 
+	"verif/checker/ai"
 	"verif/checker/ir"
 )
 
@@ -427,6 +428,146 @@ func fieldsRead(fns []*ssa.Function) map[*types.Var]bool {
 	return res
 }
 
+// sameObjectFields lists the fields f of the struct that has field g such that g always holds the very object held in f
+// (seen through another interface), or nil: wherever the package stores to g it stores, into the same struct value, the
+// value it stores to f after an interface conversion or type assertion (or nil, or a conversion of f's current content);
+// wherever it stores to f it also stores to g; neither field's address is used for anything but these stores and loads.
+// Whole-value copies of the struct keep the pair together and need no look.
+func sameObjectFields(fns []*ssa.Function, g *types.Var) []*types.Var {
+	type site struct {
+		fn        *ssa.Function
+		base, val ssa.Value
+	}
+	stores := map[*types.Var][]site{}
+	escapes := map[*types.Var]bool{}
+	for _, fn := range fns {
+		fn := fn
+		ir.Instrs(fn, func(in ssa.Instruction) {
+			fa, ok := in.(*ssa.FieldAddr)
+			if !ok {
+				return
+			}
+			f := ir.FieldOf(fa)
+			if f == nil || fa.Referrers() == nil {
+				return
+			}
+			for _, r := range *fa.Referrers() {
+				switch x := r.(type) {
+				case *ssa.Store:
+					if x.Addr == ssa.Value(fa) && x.Val != ssa.Value(fa) {
+						stores[f] = append(stores[f], site{fn, fa.X, x.Val})
+					} else {
+						escapes[f] = true
+					}
+				case *ssa.UnOp:
+					if x.Op != token.MUL {
+						escapes[f] = true
+					}
+				case *ssa.DebugRef:
+				default:
+					escapes[f] = true
+				}
+			}
+		})
+	}
+	var objRoot func(v ssa.Value, depth int) ssa.Value
+	objRoot = func(v ssa.Value, depth int) ssa.Value {
+		if depth > 12 || v == nil {
+			return nil
+		}
+		switch x := v.(type) {
+		case *ssa.MakeInterface:
+			return objRoot(x.X, depth+1)
+		case *ssa.ChangeInterface:
+			return objRoot(x.X, depth+1)
+		case *ssa.ChangeType:
+			return objRoot(x.X, depth+1)
+		case *ssa.TypeAssert:
+			return objRoot(x.X, depth+1)
+		case *ssa.Extract:
+			if ta, ok := x.Tuple.(*ssa.TypeAssert); ok && x.Index == 0 {
+				return objRoot(ta.X, depth+1)
+			}
+			return v
+		case *ssa.Phi:
+			var root ssa.Value
+			for _, e := range x.Edges {
+				if ir.IsNilConst(e) {
+					continue
+				}
+				r := objRoot(e, depth+1)
+				if r == nil || (root != nil && r != root) {
+					return nil
+				}
+				root = r
+			}
+			return root
+		}
+		return v
+	}
+	if escapes[g] || len(stores[g]) == 0 {
+		return nil
+	}
+	storedOn := func(f *types.Var, fn *ssa.Function, base ssa.Value) []site {
+		var res []site
+		for _, s := range stores[f] {
+			if s.fn == fn && s.base == base {
+				res = append(res, s)
+			}
+		}
+		return res
+	}
+	cands := map[*types.Var]bool{}
+	for f, ss := range stores {
+		if f == g || escapes[f] {
+			continue
+		}
+		for _, s := range ss {
+			if len(storedOn(g, s.fn, s.base)) > 0 {
+				cands[f] = true
+			}
+		}
+	}
+	var res []*types.Var
+	for f := range cands {
+		ok := true
+		for _, sg := range stores[g] {
+			if ir.IsNilConst(sg.val) {
+				continue
+			}
+			root := objRoot(sg.val, 0)
+			match := false
+			sfs := storedOn(f, sg.fn, sg.base)
+			for _, sf := range sfs {
+				if root != nil && objRoot(sf.val, 0) == root {
+					match = true
+				}
+			}
+			if !match && len(sfs) == 0 {
+				// g = conversion of the current content of f of the same struct value
+				if ld, isLd := root.(*ssa.UnOp); isLd && ld.Op == token.MUL {
+					if fa, isFA := ld.X.(*ssa.FieldAddr); isFA && ir.FieldOf(fa) == f && fa.X == sg.base {
+						match = true
+					}
+				}
+			}
+			if !match {
+				ok = false
+			}
+		}
+		for _, sf := range stores[f] {
+			if len(storedOn(g, sf.fn, sf.base)) == 0 {
+				ok = false
+			}
+		}
+		if ok {
+			res = append(res, f)
+		}
+	}
+	sort.Slice(res, func(i, j int) bool { return res[i].Pos() < res[j].Pos() })
+	return res
+}
+
 func chainString(ch []*types.Var) string {
 	var s []string
 	for _, f := range ch {
@@ -500,7 +641,13 @@ func (c *Ctx) resettableIteratorsReplay(rule, rel string, required ...*types.Nam
 		}
 		rewound := map[*types.Var]bool{} // fields holding an iterator that Reset resets
 		for _, w := range resetFP.resets {
-			rewound[w.chain[len(w.chain)-1]] = true
+			g := w.chain[len(w.chain)-1]
+			rewound[g] = true
+			// the reset capability kept in a field of its own (resolved once, when the iterator is stored): resetting
+			// that field's object resets the iterator in the sibling field it was derived from
+			for _, f := range sameObjectFields(c.P.FuncsOf(rel), g) {
+				rewound[f] = true
+			}
 		}
 		covered := func(ch []*types.Var, sets ...map[*types.Var]bool) bool {
 			for _, f := range ch {
@@ -592,4 +739,58 @@ func (c *Ctx) noCloseOutsideInterpretation(rule, rel string, methods ...*ssa.Fun
 			}
 		})
 	}
+}
+
+// ---------------------------------------------------------------------------------------------------------------------
+// initial states of the interpretation (used by runC18)
+
+// c18InitStates turns the outcomes of interpreting Init into the initial states of the exploration. Init may ask the
+// environment (a mixer that resolves each source's golibs.Reseter once, in Init): every outcome is an initial state,
+// tagged with its index so that a successful Reset is compared with the initial state the run started from.
+func c18InitStates(outs []ai.Outcome, err error) ([]*ai.State, string) {
+	if err != nil {
+		return nil, err.Error()
+	}
+	if len(outs) == 0 || len(outs) > 64 {
+		return nil, fmt.Sprintf("%d outcomes", len(outs))
+	}
+	var res []*ai.State
+	for _, o := range outs {
+		if o.Panic {
+			return nil, "Init can panic"
+		}
+		st := o.State
+		st.Events = nil
+		res = append(res, st)
+	}
+	return res, ""
+}
+
+// c18DistinctInits numbers the initial states by their implementation state (equal ones share a number) and returns
+// the distinct implementation states.
+func c18DistinctInits(states []*ai.State, impls []string) []string {
+	var distinct []string
+	for i, st := range states {
+		idx := -1
+		for j, d := range distinct {
+			if d == impls[i] {
+				idx = j
+			}
+		}
+		if idx < 0 {
+			idx = len(distinct)
+			distinct = append(distinct, impls[i])
+		}
+		st.Mem["model.init"] = ai.Int(int64(idx))
+	}
+	return distinct
+}
+
+// c18InitOf returns the number of the initial state st descends from.
+func c18InitOf(st *ai.State, n int) int {
+	i, ok := ai.AsInt(st.Mem["model.init"])
+	if !ok || i < 0 || int(i) >= n {
+		return 0
+	}
+	return int(i)
 }
